@@ -149,7 +149,7 @@ fn boxed_limbs_for(prec: u32) -> usize {
     (prec as usize).div_ceil(64).max(1)
 }
 
-fn bits_case<const N: usize>(t: &mut Tape, c: &mut Case) -> CaseResult {
+pub(crate) fn bits_case<const N: usize>(t: &mut Tape, c: &mut Case) -> CaseResult {
     let bits = 64 * N as u32;
     let bl = gen_bit_length(t, bits, c);
     let d = 1 + t.weighted(&[2, 1]);
@@ -364,7 +364,7 @@ fn bl_(v: &BoxedUint) -> Limbs {
 }
 
 /// One stream, every bit length 0..=BITS (+1): fixed, boxed at BITS, boxed at precision = length.
-fn all_lengths_case<const N: usize>(t: &mut Tape, c: &mut Case) -> CaseResult {
+pub(crate) fn all_lengths_case<const N: usize>(t: &mut Tape, c: &mut Case) -> CaseResult {
     let bits = 64 * N as u32;
     let script = byte_script(t, 8 * N, c);
     let seed = t.u64();
